@@ -350,22 +350,24 @@ func main() {
 		n      int
 		ncor   int // files offered for corruption
 		want   int // positions per large region
+		fixed  bool // the whole index space is enumerated from 0 (no seed dependent offset)
 	}{
-		{"gzip", genGzip, pick(96, 480), pick(10, 36), pick(24, 64)},
-		{"tar", genTar, pick(72, 360), pick(2, 6), pick(16, 128)},
-		{"zip", genZip, pick(72, 360), pick(2, 6), pick(8, 32)},
-		{"png", genPng, pick(120, 480), pick(8, 20), pick(24, 128)},
-		{"gif", genGif, pick(40, 240), 0, 0},
-		{"wav", genWav, pick(72, 288), 0, 0},
-		{"ogg_page", genOgg, pick(44, 220), pick(6, 16), pick(40, 256)},
-		{"bzip2", genBzip2, pick(39, 117), pick(3, 8), pick(24, 64)},
+		{"gzip", genGzip, pick(96, 480), pick(10, 36), pick(24, 64), false},
+		{"gzip", genGzipRaw, pick(64, 320), 0, 0, true}, // hand-rolled writer: every FLG value 0..31 at least twice
+		{"tar", genTar, pick(72, 360), pick(2, 6), pick(16, 128), false},
+		{"zip", genZip, pick(72, 360), pick(2, 6), pick(8, 32), false},
+		{"png", genPng, pick(120, 480), pick(8, 20), pick(24, 128), false},
+		{"gif", genGif, pick(40, 240), 0, 0, false},
+		{"wav", genWav, pick(72, 288), 0, 0, false},
+		{"ogg_page", genOgg, pick(44, 220), pick(6, 16), pick(40, 256), false},
+		{"bzip2", genBzip2, pick(39, 117), pick(3, 8), pick(24, 64), false},
 	}
 	off := int(r.U64() % 1000)
 	for _, g := range gens {
 		var cases []*fcase
 		for i := 0; i < g.n; i++ {
 			idx := i
-			if i >= g.n/2 {
+			if i >= g.n/2 && !g.fixed {
 				idx = i + off // second half: seed dependent part of the index space
 			}
 			if c := g.gen(r.Fork(), idx); c != nil {
